@@ -714,3 +714,10 @@ func VerifOGPrefixes(root *html.Node) (string, string, string) {
 	}
 	return opengraph.VerifFindPrefixes(document)
 }
+
+// VerifSelectAndCount: which word counter SelectWordCounter picks for sample, and what that
+// counter makes of text.
+func VerifSelectAndCount(sample, text string) (string, int) {
+	wc := stringutil.SelectWordCounter(sample)
+	return fmt.Sprintf("%T", wc), wc.Count(text)
+}
